@@ -29,11 +29,26 @@ def has_quant(e):
     return False
 
 
+def flatten(h, out, guard=None):
+    """Split conjunctions (also under an implication / ite-as-implication) into separate facts."""
+    if z3.is_and(h):
+        for c in h.children():
+            flatten(c, out, guard)
+    elif z3.is_implies(h) and (z3.is_and(h.arg(1)) or z3.is_implies(h.arg(1))):
+        g = h.arg(0) if guard is None else z3.And(guard, h.arg(0))
+        flatten(h.arg(1), out, g)
+    else:
+        out.append(h if guard is None else z3.Implies(guard, h))
+
+
 def to_smt2(axioms, hyps, goal, qf_only=False):
     s = z3.Solver()
     if not qf_only:
         s.add(*axioms)
+    flat = []
     for h in hyps:
+        flatten(h, flat)
+    for h in flat:
         if qf_only and has_quant(h):
             continue
         s.add(h)
